@@ -29,6 +29,8 @@ func main() {
 	commands["render"] = cmdRender
 	commands["gen"] = cmdGen
 	commands["lex"] = cmdLex
+	commands["astexport"] = cmdAstExport
+	commands["repotests"] = cmdRepoTests
 	commands["batch"] = cmdBatch
 	commands["emit"] = cmdEmit
 	commands["cli"] = cmdCli
